@@ -2,7 +2,7 @@
 
 import ast
 
-from ..index import unparse, iter_own_nodes
+from ..index import unparse, iter_own_nodes, AnalysisError
 from ..cfg import calls_in_node, INF, handler_catches_all_exceptions
 from ..contain import protecting_handler, in_handler
 from ..framework import stores_to_name, assigned_values
@@ -34,7 +34,15 @@ def _send(chk):
 def fanout_loop(chk):
     send = _send(chk)
     cfg = chk.ctx.cfg(send)
-    loops = common.for_loops(cfg, lambda st: unparse(st.iter) == "self._destinations")
+    WHOLE = ("self._destinations", "self._destinations[:]", "list(self._destinations)", "tuple(self._destinations)", "self._destinations.copy()")
+    loops = common.for_loops(cfg, lambda st: unparse(st.iter) in WHOLE)
+    if not loops:
+        partial = common.for_loops(cfg, lambda st: "self._destinations" in unparse(st.iter))
+        for h in partial:
+            chk.bad("C08.fanout", "send:iterates-whole-list", chk.where(send, h.lineno),
+                    "the fan-out loop iterates %s, not every registered destination" % unparse(h.ast.iter))
+        if partial:
+            raise AnalysisError("fan-out loop does not iterate the whole destination list")
     chk.need(len(loops) == 1, "fan-out loop `for <dest> in self._destinations` not found exactly once in Destinations.send (found %d)" % len(loops))
     head = loops[0]
     chk.need(isinstance(head.ast.target, ast.Name), "fan-out loop target is not a simple name")
